@@ -60,6 +60,10 @@ struct World {
     barriers: BTreeMap<u32, (usize, usize)>, // id -> (needed, arrived)
     tids: Vec<ThreadId>,
     divergence: bool,
+    /// (joiner, target) pairs of every join so far
+    joined: Vec<(usize, usize)>,
+    /// a thread started WAITING for a child after another child it had already joined had panicked
+    waited_after_panic: Option<(usize, usize, usize)>,
 }
 
 /// scheduler events so far (a stall = no event for STALL_MS while the baton holder neither parks, blocks nor finishes)
@@ -282,8 +286,15 @@ pub fn block_join(target: usize) {
     let mut g = lock();
     {
         let w = g.as_mut().unwrap();
+        let earlier_panicked = w.joined.iter().find(|(j, t)| *j == me && *t != target && w.threads[*t].st == St::Finished && w.threads[*t].panicked).map(|(_, t)| *t);
+        w.joined.push((me, target));
         if w.threads[target].st == St::Finished || FREERUN.load(SeqCst) {
             return;
+        }
+        if let Some(t) = earlier_panicked {
+            if w.waited_after_panic.is_none() {
+                w.waited_after_panic = Some((me, target, t));
+            }
         }
         w.threads[me].st = St::BlockedJoin(target);
         reschedule(w);
@@ -357,6 +368,9 @@ pub struct Exec {
     pub thread_parents: Vec<usize>,
     pub thread_panicked: Vec<bool>,
     pub divergence: bool,
+    /// (joiner, awaited thread, panicked thread): the joiner started waiting for a thread although a thread it had already joined
+    /// had panicked
+    pub waited_after_panic: Option<(usize, usize, usize)>,
     /// the baton holder stalled outside the scheduler (a real lock held by a parked thread): the rest of the execution ran free
     pub uncontrolled: bool,
 }
@@ -389,6 +403,8 @@ pub fn run_one(f: fn() -> String, caller: Option<&str>, script: &[usize]) -> Exe
             barriers: BTreeMap::new(),
             tids: Vec::new(),
             divergence: false,
+            joined: Vec::new(),
+            waited_after_panic: None,
         });
     }
     vrt::set_pre_hook(Some(hook));
@@ -442,6 +458,7 @@ pub fn run_one(f: fn() -> String, caller: Option<&str>, script: &[usize]) -> Exe
         thread_parents: w.threads.iter().map(|t| t.parent).collect(),
         thread_panicked: w.threads.iter().map(|t| t.panicked).collect(),
         divergence: w.divergence,
+        waited_after_panic: w.waited_after_panic,
         uncontrolled: FREERUN.load(SeqCst),
     }
 }
@@ -603,6 +620,12 @@ pub mod harness {
         }
         if !vrt::steps_monotone(&ex.log) {
             return Some("an event of an earlier step was observed after an event of a later step (step barrier broken)".to_string());
+        }
+        if let Some((j, t, p_)) = ex.waited_after_panic {
+            return Some(format!(
+                "thread {} started waiting for thread {} although thread {}, which it had already joined, had panicked: the panic reaches the caller only after the siblings have finished (the caller is left blocked meanwhile)",
+                j, t, p_
+            ));
         }
         match panic_step {
             Some(k) => {
